@@ -16,4 +16,6 @@ func c07(p *core.Program, r *core.Report) {
 	r.Rule("R5", "affected-row coverage: wherever a set of affected rows is built and handed to a position importer, every row a written position belongs to is in it — each pos(row, col) computed there inserts that same row variable, and rows computed inside a helper (BSI exists/sign/bit rows) lie within the affine range of keys inserted (one symbol: the bit depth)")
 	r.NotDecided = "value-level equality of reads with the sequential model for all histories; which block/row an invalidation names beyond the syntactic row variable and the affine BSI range"
 	c07Rows(p, r, b)
+	r.Rule("R6", "the count cache is not storage: in every function that consults <fragment>.cache.Get, every path on which the value may be zero (a test of the value or of a local holding it, evaluated against 0) reads the row from storage (fragment.row/unprotectedRow/rowFromStorage/bit or a method of <fragment>.storage) before it returns")
+	c07CacheIsNotStorage(p, r)
 }
